@@ -220,7 +220,7 @@ def files_equal(f1, f2, upto_blanks):
     return z3.And(*parts) if parts else z3.BoolVal(True)
 
 
-def task_shape(shape):
+def task_shape(shape, second=0, seed=0):
     ld, fs = _load()
     T = ld.t2data
     failures, samples, distinct = [], [], set()
@@ -321,7 +321,9 @@ def task_shape(shape):
         flush()
         return 'checked'
 
-    res = sym.explore(h, sym.Ctx(timeout_ms=300000), max_paths=600, wall_s=1500)
+    cx = sym.Ctx(timeout_ms=300000)
+    cx.second_every, cx.second_offset = second, seed
+    res = sym.explore(h, cx, max_paths=600, wall_s=1500)
     tr = report.summarize('shape ' + tag, res, failures, samples, extra=dict(distinct_obligations=len(distinct)))
     if not any(p.outcome == 'checked' for p in res['paths']):
         tr['error'] = 'vacuity: no path reached the obligations: %s' % tr['outcomes']
@@ -376,7 +378,7 @@ def shapes(tier):
 def run(tier, seed, rep):
     _load()
     sh = shapes(tier)
-    tasks = [(task_shape, dict(shape=s)) for s in sh]
+    tasks = [(task_shape, dict(shape=s, second=40 if tier == 'thorough' else 0, seed=seed)) for s in sh]
     rep.add_results(report.run_tasks(tasks))
     rep.bounds += ['%d shapes (see per_task): whole TOUGH2 / AUTOUGH2 models, mesh in file / in a MESH file, extra precision echoed / not echoed, meshmaker xyz / rz2d / minc, history requests with and without a grid%s' % (
         len(sh), '; thorough: list lengths 0..13 for every 4- and 8-per-line list, table generators with 1..12 times with / without enthalpy, every section alone' if tier == 'thorough' else ''),
